@@ -2,7 +2,7 @@
 # tools/seed-process.sh <Cnn> [name]: imports /tmp/seed-Cnn/out into /verif/seeded/<name>, confirms it
 # (tools/seed-verify.sh) and runs the property's check against it (quick, then thorough if missed).
 ID=$1; NAME=${2:-$ID-a}
-SRC=/tmp/seed-$ID/out; DST=/verif/seeded/$NAME
+SRC=${3:-/tmp/seed-$ID/out}; DST=/verif/seeded/$NAME
 [ -f $SRC/patch.diff ] && [ -f $SRC/meta.json ] || { echo "no deliverables in $SRC"; exit 2; }
 mkdir -p $DST && cp -r $SRC/* $DST/
 echo "== patch touches:"; grep '^+++ ' $DST/patch.diff
